@@ -43,7 +43,7 @@ pub(crate) fn ti_one_second() -> TimeInterval {
 }
 
 // @harness c07_foreign_master_registration
-// @props C07 C03 C11:thorough
+// @props C07:quick C03:quick C11:thorough
 // @tier quick
 // @variant lists2
 // @timeout 1200
@@ -77,7 +77,7 @@ fn c07_foreign_master_registration() {
 }
 
 // @harness c03_foreign_master_list_ageing
-// @props C03
+// @props C03:thorough
 // @tier thorough
 // @role best_effort
 // @variant lists2
@@ -138,11 +138,11 @@ fn plain_announce(port_number: u16, seq: u16) -> AnnounceMessage {
 }
 
 // @harness c03_foreign_master_list_step_age
-// @props C03
+// @props C03:quick
 // @tier quick
 // @variant lists2
 // @timeout 900
-// @mem 8
+// @mem 5
 // @functions ForeignMasterList::step_age, ForeignMaster::step_age, ForeignMaster::purge_old_messages, ArrayVec::remove, ArrayVec::retain
 // @bounds stand-alone list with capacities scaled 8 -> 2 holding two masters with one concrete Announce each, symbolic ages (0 .. 2^35 ns), one ageing step of symbolic length (0 .. 2^35 ns); announce interval 1 s
 // @note the walk-and-remove loop of the list: no panic (index arithmetic while removing), a master is dropped exactly when its only Announce is older than four intervals, survivors keep their order
@@ -296,12 +296,12 @@ fn record_step_case(c: usize) {
 }
 
 // @harness c06_record_step_age
-// @props C06 C03
+// @props C06:quick C03:quick
 // @tier quick
 // @variant lists2_rv
 // @stubbing yes
 // @timeout 1500
-// @mem 12
+// @mem 4
 // @functions ForeignMaster::step_age, ForeignMaster::purge_old_messages, ArrayVec::retain
 // @bounds stand-alone record of one master holding 1 or 2 messages (both shapes) with any ages in [0, window) and any sequence ids; one step_age(step) with any step in [0, 2^36 ns); announce interval 1 s; message capacity scaled 8 -> 2
 // @assume arrayvec::ArrayVec::retain (textually, at statime's call sites in the scratch copy: variant _rv) and ArrayVec::remove (#[kani::stub]) replaced by element-wise equivalents for at most two elements (retain2, remove2): the dependency's documented behaviour is trusted, statime's closure and call pattern are the real code
@@ -330,12 +330,12 @@ fn record_register_case(c: usize) {
 }
 
 // @harness c06_record_register
-// @props C06 C03
+// @props C06:quick C03:quick
 // @tier quick
 // @variant lists2_rv
 // @stubbing yes
 // @timeout 1500
-// @mem 12
+// @mem 5
 // @functions ForeignMaster::register_announce_message, ForeignMaster::purge_old_messages, ArrayVec::try_push, ArrayVec::remove, ArrayVec::push
 // @bounds stand-alone record holding 1 or 2 messages (both shapes, ages in [0, window)); one register_announce_message with any sequence id and any age in [0, window); message capacity scaled 8 -> 2
 // @assume arrayvec::ArrayVec::retain (textually, at statime's call sites in the scratch copy: variant _rv) and ArrayVec::remove (#[kani::stub]) replaced by element-wise equivalents for at most two elements (retain2, remove2): the dependency's documented behaviour is trusted, statime's closure and call pattern are the real code
@@ -443,12 +443,12 @@ fn step_age_case(n: usize, cs: [usize; 2]) {
 }
 
 // @harness c06_list_step_age
-// @props C06 C03
+// @props C06:quick C03:thorough
 // @tier quick
 // @variant lists2
 // @stubbing yes
 // @timeout 1500
-// @mem 20
+// @mem 14
 // @functions ForeignMasterList::step_age, ArrayVec::remove
 // @bounds one step_age(step) with any step in [0, 2^36 ns) from an arbitrary list state satisfying the invariant (each of the 7 shapes of 0..=2 records with 1..=2 messages, any ages in [0, window), any sequence ids); announce interval 1 s; capacities scaled 8 -> 2; stored Announce payloads concrete
 // @assume ForeignMaster::step_age replaced by fm_step_age_stub (returns a symbolic 'nothing left' verdict per record, checks its arguments); the real function is decided by c06_record_step_age
@@ -496,11 +496,11 @@ fn take_case(n: usize, cs: [usize; 2]) {
 }
 
 // @harness c06_list_take_qualified
-// @props C06 C03
+// @props C06:quick C03:quick
 // @tier quick
 // @variant lists2
 // @timeout 1500
-// @mem 12
+// @mem 5
 // @functions ForeignMasterList::take_qualified_announce_messages, ArrayVec::remove, ArrayVec::push, ArrayVec::into_iter
 // @bounds one take_qualified_announce_messages() from an arbitrary list state satisfying the invariant (each of the 7 shapes, as c06_list_step_age); no stubs
 // @note qualification half of C06: a master yields a message (its most recent one) iff its record holds at least two messages - all of which are younger than four announce intervals by the invariant; a record with a single message yields nothing and is left untouched; nothing else changes
@@ -562,12 +562,12 @@ fn register_case(n: usize, cs: [usize; 2]) {
 }
 
 // @harness c06_list_register
-// @props C06 C07:thorough C03
+// @props C06:quick C07:thorough C03:quick
 // @tier quick
 // @variant lists2
 // @stubbing yes
 // @timeout 1800
-// @mem 16
+// @mem 5
 // @functions ForeignMasterList::register_announce_message, ForeignMasterList::is_announce_message_qualified, ForeignMasterList::get_foreign_master_mut, ForeignMaster::new, ArrayVec::push
 // @bounds one register_announce_message(header, announce, age) from an arbitrary list state satisfying the invariant (each of the 7 shapes); the Announce comes from record 0, record 1, a third master or the own clock (symbolic choice), with any sequence id, any stepsRemoved and any age in [0, window); capacities scaled 8 -> 2
 // @assume ForeignMaster::register_announce_message replaced by fm_register_stub (records master, sequence id, age, interval); the real function is decided by c06_record_register
